@@ -381,6 +381,14 @@ def run(ctx):
     # the vault's balance snapshot for the repayment test is the raw queried balance (pending fees are owed, not spare)
     from .C06 import check_flash_loan
     check_flash_loan(ctx.renamed({"C06-X2": "C07-F1"}), model)
+    # F6: pending fees are not LP reserves, before and after a collection: every reader of pool balances subtracts the
+    # PENDING ledger (not the all-time one), looked up per asset, for every asset kind
+    from .poolvalue import check_v1_pools, check_fee_lookup_same_asset, check_raw_balance_single_consumer, check_fee_deduction_all_kinds, pending_fee_subtracted
+    for crate in POOLS:
+        check_v1_pools(ctx, model, crate, "C07-F6")
+        check_fee_lookup_same_asset(ctx, model, crate, "C07-F6")
+        check_raw_balance_single_consumer(ctx, model, crate, "C07-F6")
+        check_fee_deduction_all_kinds(ctx, model, crate, "C07-F6")
     for crate in POOLS:
         check_ledger_init(ctx, model, crate)
         check_swap(ctx, model, crate)
